@@ -27,7 +27,8 @@ def _run_patch(prop, v, wt):
     try:
         env = dict(os.environ, ORV_REPO=wt, ORV_NO_EVIDENCE='1', ORV_REPORTS=os.path.join(wt, '.orv-reports'))
         r = subprocess.run([os.path.join(VERIF, 'orcheck'), prop, '--tier', 'quick'], stdout=subprocess.PIPE, stderr=subprocess.STDOUT, text=True, env=env)
-        fired = [l for l in r.stdout.split('\n') if (': ' + prop + '.R') in l]
+        import re
+        fired = [l for l in r.stdout.split('\n') if re.search(r': C\d\d\.R\w+: ', l)]       # the property's own check may report through an included rule pack
         status = 'caught' if r.returncode == 1 and fired else ('broken' if r.returncode == 2 else 'missed')
         return {'variant': v['name'], 'rule': prop, 'status': status, 'exit': r.returncode, 'report': (fired[0][:300] if fired else r.stdout[-400:])}
     finally:
